@@ -350,6 +350,15 @@ func (t *task) main() {
 	t.fn()
 }
 
+// newSpawned makes the task of a goroutine the library starts. The launcher goroutine and the new goroutine read these
+// fields without any edge from the scheduler (an edge would order the new goroutine after every task that has already
+// finished and could hide a race of the library), so the writes are kept out of the race detector's sight.
+//
+//go:norace
+func newSpawned(s *Sim, parent *task, fn func()) *task {
+	return &task{id: len(s.tasks), name: fmt.Sprintf("%s.go%d", strings.SplitN(parent.name, ".go", 2)[0], len(s.tasks)), sim: s, fn: fn, wake: make(chan resp), spawned: true}
+}
+
 // rpc is executed on a task goroutine.
 func rpc(r req) resp {
 	t := getCur()
@@ -472,7 +481,7 @@ func (s *Sim) apply(t *task) resp {
 		// a go statement of the library under test: the new goroutine is one more task of this scheduler. It is started by
 		// the launcher goroutine (which has acquired nothing from any task), parks at its first scheduling point like
 		// every task, and runs only when chosen.
-		nt := &task{id: len(s.tasks), name: fmt.Sprintf("%s.go%d", strings.SplitN(t.name, ".go", 2)[0], len(s.tasks)), sim: s, fn: r.x.(func()), wake: make(chan resp), spawned: true}
+		nt := newSpawned(s, t, r.x.(func()))
 		if s.cfg.Policy == PolicyPCT {
 			nt.prio = 1 + s.ch.Intn(s.cfg.PCTDepth+1+len(s.tasks), "pctspawn")
 		}
